@@ -470,7 +470,7 @@ func oracle(obs []event, threads map[int]*thread, injs []*injection, dumps []str
 		default:
 			return fmt.Sprintf("thread %d returned an unexpected error", k), ""
 		}
-		if th.retAt-th.callAt > th.tmo+150*time.Millisecond {
+		if th.retAt-th.callAt > th.tmo+5*time.Second { // only a hang detector: wall-clock latency is not part of the property and depends on machine load
 			return fmt.Sprintf("thread %d returned after %v, timeout was %v", k, th.retAt-th.callAt, th.tmo), ""
 		}
 	}
